@@ -3090,7 +3090,7 @@ def run(ctx):
     short = ctx.time_left() < (60 if quick else 400)
     if short:
         ctx.count("dedicated_streams_reduced")
-    for i in range((40 if short else 160) if quick else 1500):
+    for i in range((40 if short else 160) if quick else 1000):
         # simultaneous let: swaps, rotations, later bindings mentioning earlier-rebound names
         if not short and ctx.time_left() < (45 if quick else 300):
             break
@@ -3098,7 +3098,7 @@ def run(ctx):
         text = render_script(ctx.rng, [c[0] for c in g.cmds], fancy=ctx.rng.random() < 0.3)
         check_script(ctx, g, text, ig, lines, meta, "let-sim", n_interps=6)
     mark("let-sim")
-    for i in range((100 if short else 260) if quick else 2500):
+    for i in range((100 if short else 260) if quick else 1500):
         # n-ary forms of chainable / left-assoc / right-assoc / pairwise operators: the standard's meaning, or a rejection
         if not short and ctx.time_left() < (45 if quick else 300):
             break
@@ -3106,7 +3106,7 @@ def run(ctx):
         text = render_script(ctx.rng, [c[0] for c in g.cmds], fancy=ctx.rng.random() < 0.2)
         check_script(ctx, g, text, ig, lines, meta, "nary", std_always=True, n_interps=8)
     mark("nary")
-    for i in range((40 if short else 120) if quick else 1200):
+    for i in range((40 if short else 120) if quick else 500):
         # definitions with equally named and sorted parameters applied to each other's parameters in another order
         if not short and ctx.time_left() < (45 if quick else 300):
             break
@@ -3114,9 +3114,9 @@ def run(ctx):
         text = render_script(ctx.rng, [c[0] for c in g.cmds], fancy=ctx.rng.random() < 0.2)
         check_script(ctx, g, text, ig, lines, meta, "define-chain", n_interps=6)
     mark("define-chain")
-    run_undeclared(ctx, (80 if short else 220) if quick else 2500, forced=short)
+    run_undeclared(ctx, (80 if short else 220) if quick else 1500, forced=short)
     mark("undeclared")
-    run_command_sequences(ctx, ig, lines, meta, (80 if short else 250) if quick else 2500, forced=short)
+    run_command_sequences(ctx, ig, lines, meta, (80 if short else 250) if quick else 1200, forced=short)
     mark("command-sequences")
     n = 700 if quick else 6000
     for i in range(n):
